@@ -29,6 +29,7 @@ def main():
     args = sys.argv[1:]
     tier = "quick"
     all_checks = False
+    vseed = None
     pats = []
     while args:
         a = args.pop(0)
@@ -36,6 +37,8 @@ def main():
             tier = args.pop(0)
         elif a == "--all-checks":
             all_checks = True
+        elif a == "--seed":
+            vseed = args.pop(0)
         else:
             pats.append(a)
     ids = sorted(d for d in os.listdir(os.path.join(HERE, "seeded")) if os.path.isdir(os.path.join(HERE, "seeded", d)) and not d.startswith("ok-"))
@@ -71,10 +74,17 @@ def main():
             for p in props:
                 t0 = time.time()
                 r = subprocess.run([os.path.join(HERE, "check"), p, "--tier", tier, "--no-evidence"], capture_output=True, text=True,
-                                   env=dict(os.environ, VERIF_TREE=wt), cwd=HERE)
+                                   env=dict(os.environ, VERIF_TREE=wt, **({"VERIF_SEED": vseed} if vseed else {})), cwd=HERE)
                 viol = [ln for ln in r.stdout.splitlines() if ln.startswith("VIOLATION")]
                 first = next((ln.strip() for ln in r.stdout.splitlines() if ln.strip().startswith("violation clause")), "")
-                checks[p] = {"tier": tier, "exit": r.returncode, "violation_lines": len(viol), "seconds": round(time.time() - t0), "first": first[:300]}
+                rec = {"tier": tier, "exit": r.returncode, "violation_lines": len(viol), "seconds": round(time.time() - t0), "first": first[:300]}
+                if vseed:
+                    checks.setdefault(p, {}).setdefault("other_seeds", {})[vseed] = {"exit": r.returncode, "violation_lines": len(viol)}
+                else:
+                    other = checks.get(p, {}).get("other_seeds")
+                    checks[p] = rec
+                    if other:
+                        checks[p]["other_seeds"] = other
                 line.append(f"{p}:rc={r.returncode}/{len(viol)}b/{round(time.time() - t0)}s")
             meta["ran"] = ("tools/seedrun.py: patch applied to a scratch git worktree of /repo HEAD under /root/scratch/m (removed afterwards); repository tests, "
                            "demo.py and `./check <id> --tier %s` with VERIF_TREE=<worktree>" % tier)
